@@ -424,7 +424,7 @@ class Executor(object):
             else:
                 msg = str(err)
             self.ui.error(msg, run_id, script, path)
-            return
+            raise FailedBuilding(name, build_command) from err
 
         if self.build_log:
             self.process_output(name, stdout_result, stderr_result)
